@@ -70,5 +70,22 @@ theorem C19_reset : has (shadowDefault 0x29) 0x01#8 = false ∧ has (DS.resetVal
 example : (match (Request.fifo [.readDisabled true, .watermark 5]).script shadowDefault with
     | .ok ws => ws == [⟨0x27, 5#8⟩, ⟨0x29, 1#8⟩] | .error _ => false) = true := by decide
 
+/-- a FIFO burst that fails (any schedule in which the first raw operation of the call fails) is ONE
+    attempted burst and the call returns that failure; nothing else is attempted - I2C.  This is the
+    clause `judge` evaluates on faulted FIFO reads (a silent retry is two bursts and Ok). -/
+theorem C19_faulted_i2c (dev : Nat) (fails : Nat → Bool) (w : World) (n : Nat)
+    (h : has (w.shadow 0x29) 0x01#8 = false) (hf : fails 0 = true) :
+    (runOp (.i2c dev) fails w (.readFifo n)).1 = [⟨.i2cWriteRead dev [0x14#8] n, false⟩] ∧
+    (runOp (.i2c dev) fails w (.readFifo n)).2.2 = .err (.io 0) := by
+  simp [runOp, C19_plan _ n h, exec, readRegister, World.raw, hf, Op.finish, finishOutcome]
+
+/-- the same for the two commands -/
+theorem C19_faulted_cmd_i2c (dev : Nat) (fails : Nat → Bool) (w : World) (hf : fails 0 = true) :
+    (runOp (.i2c dev) fails w .flushFifo).1 = [⟨.i2cWrite dev [0x7E#8, 0xB0#8], false⟩] ∧
+    (runOp (.i2c dev) fails w .flushFifo).2.2 = .err (.io 0) ∧
+    (runOp (.i2c dev) fails w .clearStepCount).1 = [⟨.i2cWrite dev [0x7E#8, 0xB1#8], false⟩] ∧
+    (runOp (.i2c dev) fails w .clearStepCount).2.2 = .err (.io 0) := by
+  simp [runOp, Op.plan, exec, writeRegister, World.raw, hf, Op.finish, finishOutcome, cmd_FlushFifo, cmd_ClearStepCount]
+
 end Thm
 end Bma400
